@@ -100,6 +100,13 @@ def withKids (rs : List MRes) (k : List XmlTree → XmlTree) : MRes :=
   | .ok ts => .ok (k ts)
   | .error e => e
 
+/-- `Number::is_zero()`: exact 0, or a double / complex double equal to 0.0 (either sign) -/
+def isZeroNum : Expr → Bool
+  | int n => n == 0
+  | dbl b => b == 0 || b == negZeroBits
+  | cdbl r i => (r == 0 || r == negZeroBits) && (i == 0 || i == negZeroBits)
+  | _ => false
+
 mutual
   def mathmlTree : Expr → MRes
     | int n => .ok (cn "integer" [.text (toString n)])
@@ -119,7 +126,7 @@ mutual
       if n == "pi" then .ok (empty "pi") else if n == "E" then .ok (empty "exponentiale")
       else if n == "EulerGamma" then .ok (empty "eulergamma") else .skip
     | add c ts =>
-      let cs := if StrP.isInt c 0 then [] else [mathmlTree c]
+      let cs := if isZeroNum c then [] else [mathmlTree c]   -- Add::get_args(): `not coef_->is_zero()`
       withKids (cs ++ termTrees ts) (apply "plus")
     | mul c fs =>
       let cs := if StrP.isInt c 1 then [] else [mathmlTree c]
